@@ -260,3 +260,53 @@ def structured_transforms(rng, n):
     out.append(("scaled selection", sel))
     return out
 
+
+# ---- shells that declare their Cartesian components in another order (what IODataShell does for Molden / Gaussian conventions) ----
+def custom_order(spec, rng=None, kind="reversed"):
+    """the same shell reporting `angmom_components_cart` reversed (z-major), or in a random order"""
+    l = spec.l
+    d = [(x, y, l - x - y) for x in range(l, -1, -1) for y in range(l - x, -1, -1)]
+    if kind == "reversed" or rng is None:
+        cart = list(reversed(d))
+    else:
+        cart = list(d)
+        rng.shuffle(cart)
+    return spec.copy(cart=[list(c) for c in cart])
+
+
+def custom_order_family(rng, ls=(1, 2, 3), two=True):
+    """bases of shells with declared (non-default) Cartesian orders, Cartesian and spherical, next to a default-order shell"""
+    cs = []
+    specs = []
+    for k, l in enumerate(ls):
+        s_ = rand_shell(rng, l, cs, nprim=rng.randint(1, 2), nseg=1 + k % 2, exp_hi=20.0)
+        specs.append(custom_order(s_, rng, "reversed" if k % 2 == 0 else "shuffled"))
+    if two:
+        specs.append(rand_shell(rng, rng.randint(0, 2), cs, nprim=2, nseg=1, exp_hi=20.0))
+    return specs
+
+
+# ---- density matrices with exact zeros on the diagonal (transition / difference matrices): indefinite, the zero-diagonal orbital
+#      still couples to the others
+def zero_diag_symmetric(rng, n, nzero=1):
+    a = random_symmetric(rng, n, psd=False)
+    for k in rng.sample(range(n), min(nzero, n)):
+        a[k, k] = 0.0
+    return a
+
+
+# ---- quartets mixing a tight core shell, a diffuse shell and moderate shells in every arrangement of the four slots ------------
+def mixed_tight_diffuse_quartets(full=False):
+    """(tag, [a, b, c, d]): M = moderate d shells, D = diffuse p / d shell, T = contracted core s shell (3e4, 4.5e3); the accuracy
+    of (ab|cd) must not depend on which slots the tight and the diffuse shell occupy"""
+    M1 = ShellSpec(2, [0.0, 0.0, 0.0], [1.1], [1.0])
+    M2 = ShellSpec(2, [0.4, -0.3, 0.9], [0.8], [1.0])
+    Dp = ShellSpec(1, [0.2, 0.5, -0.4], [0.02], [1.0])
+    Dd = ShellSpec(2, [0.2, 0.5, -0.4], [0.05], [1.0])
+    T = ShellSpec(0, [-0.3, 0.1, 0.2], [3.0e4, 4.5e3], [[0.3], [0.7]])
+    pats = [("MM|DT", [M1, M2, Dp, T]), ("MM|TD", [M1, M2, T, Dp]), ("DT|MM", [Dp, T, M1, M2]), ("MD|MT", [M1, Dp, M2, T]),
+            ("MT|DM", [M1, T, Dp, M2]), ("TM|MD", [T, M1, M2, Dp])]
+    if full:
+        pats += [("MM|DT(d)", [M1, M2, Dd, T]), ("TD|MM(d)", [T, Dd, M1, M2]), ("DM|TM(d)", [Dd, M1, T, M2]), ("MT|MD(d)", [M1, T, M2, Dd])]
+    return pats
+
